@@ -276,3 +276,34 @@ func VerifC09_destinations() {
 	vfAssert(vfOr(err != nil, string(w.got) == want), "nil-result-means-complete-output")
 	vfObserveBool("err", err != nil)
 }
+
+// VerifC09_longcells: cells and headers of 79..130 display cells (plain, double-width, or an item that
+// only declares such a width): every renderer is total on columns wider than any fixed-size helper.
+func VerifC09_longcells() {
+	n := []int{79, 80, 81, 100, 130}[vfChoice("width", 5)]
+	var item interface{}
+	switch vfChoice("kind", 2) {
+	case 0:
+		b := make([]byte, n)
+		for i := range b {
+			b[i] = 'x'
+		}
+		item = string(b)
+	case 1:
+		s := ""
+		for i := 0; i < (n+1)/2; i++ {
+			s += "世"
+		}
+		item = s
+	}
+	t := tabular.New()
+	if vfChoice("in-header", 2) == 1 {
+		t.AddHeaders(item, "h")
+		t.AddRowItems("a", "b")
+	} else {
+		t.AddHeaders("g", "h")
+		t.AddRowItems("a", item)
+	}
+	vfRenderAll(t, 1, true)
+	vfAssert(true, "long-cells-no-panic")
+}
